@@ -238,6 +238,10 @@ func c20SetBitsExp(c *hx.Ctx, r *hx.RNG) {
 		if len(m) == 0 {
 			own = false
 		} else {
+			if len(m) > 1 && r.Chance(40) {
+				m = m[r.Range(1, len(m)-1):] // the upper words only (the low ones dropped by re-slicing): the slice starts inside the receiver's array
+				shape += "/resliced"
+			}
 			copy(m, w[n-len(m):])
 			w, n = m, len(m)
 			shape += "/own-slice"
